@@ -374,11 +374,14 @@ func (g *G) specSwitchFrame() ([]byte, util.Message, string, string) {
 	case 11: // multipart reply: description
 		m := &of.MultipartReply{Header: hdr(19), Type: of.MultipartType_Desc, Flags: uint16(g.r.Intn(2))}
 		d := of.NewDescStats()
-		copy(d.MfrDesc, g.r.Bytes(30))
-		copy(d.HWDesc, g.r.Bytes(30))
-		copy(d.SWDesc, g.r.Bytes(30))
-		copy(d.SerialNum, g.r.Bytes(12))
-		copy(d.DPDesc, g.r.Bytes(30))
+		// strings of any length up to the full width of their field (a full-width string has no
+		// terminating zero)
+		dl := func(w int) int { return []int{0, 1, w / 8, w - 1, w, w}[g.r.Intn(6)] }
+		copy(d.MfrDesc, g.r.Bytes(dl(256)))
+		copy(d.HWDesc, g.r.Bytes(dl(256)))
+		copy(d.SWDesc, g.r.Bytes(dl(256)))
+		copy(d.SerialNum, g.r.Bytes(dl(32)))
+		copy(d.DPDesc, g.r.Bytes(dl(256)))
 		m.Body = []util.Message{d}
 		w.header(19, xid)
 		w.u16(0)
